@@ -4,7 +4,7 @@ CHECK = dict(
     property='C10', level='exploration',
     families=[('stale', 1.0)],
     budget=dict(quick=55, thorough=900), max_runs=dict(quick=200_000, thorough=5_000_000),
-    rule='motifs: the same script-hash request repeated by several clients over blocks that are indexed and notified meanwhile (reads slow by seconds); every client gone while the chain moves; operator `query` look-ups with small limits; each evaluation = one simulated run of the real server through C07-style histories (blocks, natural and forced reorgs incl. ones ending at the same height, mempool changes) with cache-populating client queries (get_history, listunspent, get_balance, id_from_pos, get_merkle, header proofs) placed at scheduler-chosen offsets before, during and after reorg windows (LRU caches at production size so entries are never evicted); at each quiescence point every query of the property for every pool script and every height 0..tip+2 is asked by an old client and by a fresh one and compared with RefIndex / RefMempool (confirmed parts in chain order, errors expected beyond the tip). non-trivial = a full answer sweep completed',
+    rule='an unconfirmed child looked up between the undoing of the tip and the indexing of an equal-height replacement (slow fetch, slow download); motifs: the same script-hash request repeated by several clients over blocks that are indexed and notified meanwhile (reads slow by seconds); every client gone while the chain moves; operator `query` look-ups with small limits; each evaluation = one simulated run of the real server through C07-style histories (blocks, natural and forced reorgs incl. ones ending at the same height, mempool changes) with cache-populating client queries (get_history, listunspent, get_balance, id_from_pos, get_merkle, header proofs) placed at scheduler-chosen offsets before, during and after reorg windows (LRU caches at production size so entries are never evicted); at each quiescence point every query of the property for every pool script and every height 0..tip+2 is asked by an old client and by a fresh one and compared with RefIndex / RefMempool (confirmed parts in chain order, errors expected beyond the tip). non-trivial = a full answer sweep completed',
     assumptions=['model bitcoind / Electrum clients / TCP / LevelDB / file system are simulator models; '
                  'everything of ElectrumX and aiorpcX runs real', 'session cost throttling disabled '
                  '(COST_*_LIMIT=0) so that oracle sweeps are not throttled',
